@@ -22,7 +22,9 @@ CONSTANTS
                        real = the shipped prepender encodes (o = 0), otherwise the harness lays the frame out
    [kind |-> "varint", max]
    [kind |-> "delim",  max, dl, strip]
-   [kind |-> "fixed",  n]                                                            *)
+   [kind |-> "fixed",  n]
+   [kind |-> "varlen", max, frag]   variable-length codec: one message per transport read (frag = "one" | "whole")
+   [kind |-> "packet"]              packet codec: everything up to end of stream is one message            *)
 
 VARIABLES cfg, frames, cut, pos, k, last, phase, raw
 
@@ -51,7 +53,7 @@ Encode(c, p) ==
             IF p > c.max THEN [ok |-> FALSE, hv |-> 0, hlen |-> 0, size |-> 0]
             ELSE [ok |-> TRUE, hv |-> p, hlen |-> VarLen(p), size |-> VarLen(p) + p]
       [] c.kind = "delim" -> [ok |-> TRUE, hv |-> p, hlen |-> 0, size |-> p + c.dl]
-      [] c.kind = "fixed" -> [ok |-> TRUE, hv |-> p, hlen |-> 0, size |-> p]
+      [] c.kind \in {"fixed", "varlen", "packet"} -> [ok |-> TRUE, hv |-> p, hlen |-> 0, size |-> p]
 
 \* payloads the codec's contract admits
 Admitted(c, p) ==
@@ -62,6 +64,8 @@ Admitted(c, p) ==
       [] c.kind = "varint" -> p <= c.max
       [] c.kind = "delim" -> p + c.dl <= c.max
       [] c.kind = "fixed" -> p = c.n
+      [] c.kind = "varlen" -> p >= 1 /\ p <= c.max
+      [] c.kind = "packet" -> TRUE
 
 -----------------------------------------------------------------------------
 (* decoders: one invocation on a stream with R bytes left before end of stream; f = the frame
@@ -99,11 +103,21 @@ DecodeDelim(c, R, p) ==
 DecodeFixed(c, R) ==
     LET got == MinI(c.n, R) IN Msg(got, got = c.n, got)
 
+\* one transport read per message, at most max bytes; frames have no boundaries of their own
+DecodeVarlen(c, R) ==
+    IF R = 0 THEN Exc("eof", 0)
+    ELSE LET got == MinI(IF c.frag = "one" THEN 1 ELSE R, c.max) IN Msg(got, TRUE, got)
+
+\* everything that is left is one packet
+DecodePacket(c, R) == [res |-> "msg", len |-> R, complete |-> TRUE, consumed |-> R, why |-> ""]
+
 Decode(c, R, f) ==
     CASE c.kind = "lf" -> DecodeLF(c, R, f.hv)
       [] c.kind = "varint" -> DecodeVarint(c, R, f.hv, IF f.hlen < 1 THEN 1 ELSE f.hlen)
       [] c.kind = "delim" -> DecodeDelim(c, R, f.p)
       [] c.kind = "fixed" -> DecodeFixed(c, R)
+      [] c.kind = "varlen" -> DecodeVarlen(c, R)
+      [] c.kind = "packet" -> DecodePacket(c, R)
 
 -----------------------------------------------------------------------------
 NoFrame == [p |-> 0, hv |-> 0, hlen |-> 0, size |-> 0]
@@ -136,7 +150,8 @@ Step ==
           /\ k' = k + 1
           \* after an exception, at the end, or once the decoder is no longer aligned with the frames
           \* (what follows would depend on byte values) the run ends
-          /\ phase' = IF r.res = "exc" \/ k > Len(frames) \/ raw \/ r.consumed # f.size THEN "done" ELSE "run"
+          /\ phase' = IF cfg.kind = "varlen" THEN (IF r.res = "exc" THEN "done" ELSE "run")
+                       ELSE IF r.res = "exc" \/ k > Len(frames) \/ raw \/ cfg.kind = "packet" \/ r.consumed # f.size THEN "done" ELSE "run"
     /\ UNCHANGED <<cfg, frames, cut, raw>>
 
 \* a single frame with an arbitrary header value hv and body bytes, then end of stream
@@ -171,6 +186,7 @@ Spec == Init /\ [][Next]_vars
 MCInit ==
     \/ \E c \in Configs, ps \in PSeqs :
           /\ \A i \in 1..Len(ps) : Encode(c, ps[i]).ok
+          /\ (c.kind = "varlen" => \A i \in 1..Len(ps) : ps[i] <= 300)     \* one step per transport read
           /\ LET fs == [i \in 1..Len(ps) |-> FrameOf(c, ps[i])] IN
              \E ct \in CutSet(fs) :
                 /\ cfg = c /\ frames = fs /\ cut = ct /\ pos = 0 /\ k = 1 /\ raw = FALSE
@@ -192,7 +208,7 @@ Decoded == phase \in {"run", "done"} /\ last.res \in {"msg", "exc"}
 \* C04: a frame that is completely available and admitted decodes to its payload (minus stripped
 \* bytes) and consumes exactly its own bytes
 C04_RoundTrip ==
-    (Decoded /\ ~raw /\ k - 1 <= Len(frames) /\ Admitted(cfg, CurFrame.p)
+    (Decoded /\ ~raw /\ cfg.kind \notin {"varlen", "packet"} /\ k - 1 <= Len(frames) /\ Admitted(cfg, CurFrame.p)
       /\ (pos - last.consumed) + CurFrame.size <= cut
       /\ CurFrame.hlen + CurFrame.p = CurFrame.size - (IF cfg.kind = "delim" THEN cfg.dl ELSE 0)
       /\ (cfg.kind = "lf" => CurFrame.hv = EncValue(cfg, CurFrame.p))) =>
@@ -213,12 +229,14 @@ C08_DeliveredComplete == (Decoded /\ last.res = "msg") => last.complete
 C08_WithinMax ==
     (Decoded /\ last.res = "msg") =>
         (CASE cfg.kind = "fixed" -> last.len <= cfg.n
+           [] cfg.kind = "packet" -> TRUE
            [] OTHER -> last.len <= cfg.max)
-C08_NoPhantom == (Decoded /\ last.res = "msg") => last.consumed >= 1
+C08_NoPhantom == (Decoded /\ last.res = "msg" /\ cfg.kind # "packet") => last.consumed >= 1
 C08_BufferedBounded ==
     Decoded => (CASE cfg.kind = "fixed" -> last.consumed <= cfg.n
                   [] cfg.kind = "lf" -> last.consumed <= cfg.max + cfg.o + cfg.w
                   [] cfg.kind = "varint" -> last.consumed <= cfg.max + 5
+                  [] cfg.kind = "packet" -> TRUE
                   [] OTHER -> last.consumed <= cfg.max)
-C08_Progress == Decoded => (last.res = "exc" \/ last.consumed >= 1)
+C08_Progress == (Decoded /\ cfg.kind # "packet") => (last.res = "exc" \/ last.consumed >= 1)
 =============================================================================
